@@ -7,18 +7,13 @@ Theorems about `Model/AdaptDriver`: `performSpatiallyAdaptiv(L1)` followed by `c
 (with or without `save_to_file`/`restore_from_file` in between) against one `performSpatiallyAdaptiv(L2)`, for
 EVERY strategy (abstract `eval`/`refine`), EVERY interruption index and all limits.
 
-The extend–split discipline (`incMachine`: new areas are ADDED to the running integral) is re-entrant since repo
-commit 48b37d3 (`evaluate_operation` ends with `clear_new_objects()`): `incremental_reentrant` below, so
-`resume_eq_single` applies to it at every interruption state.  The property is still FALSE of the code in one configuration
-(mirrored, counterexample below):
-* dimension-wise WITHOUT reference solution: `add_volume` accumulates, the re-evaluated total surplus error — which
-  is the error the stopping rule reads — doubles (`scrMachine`, `ref = none`).
-The general theorem isolates the hypothesis that fails there: re-entrance of `eval` at the interruption state; that the
-hypothesis cannot be dropped is shown on a machine that adds its new areas again (`leakyMachine`, the discipline of the
-code BEFORE that commit).
+Both disciplines of the code are strictly re-entrant: extend–split (`incMachine`) since repo commit 48b37d3
+(`evaluate_operation` ends with `clear_new_objects()`), dimension-wise (`scrMachine`) since the volumes are reset at the
+start of every evaluation — `incremental_reentrant`, `scratch_reentrant`; hence `resume_eq_single` applies to both at every
+interruption state (`resume_incremental`, `resume_scratch`).  That the re-entrance hypothesis cannot be dropped for
+arbitrary strategies is shown on `leakyMachine` (the extend–split discipline before that commit).
 
-Full statement of the property (NOT provable for arbitrary strategies: `resume_eq_single_fails_without_reentrance`;
-refuted for the mirrored dimension-wise discipline without reference: `resume_counterexample_scratch_noref`):
+Full statement of the property (NOT provable for arbitrary strategies: `resume_eq_single_fails_without_reentrance`):
 
     ∀ M L1 L2 s0 r, L1.grow L2 → run M L2 f s0 = some r →
       ∃ r2, resume M L1 L2 f1 f2 s0 = some r2 ∧ SameStructureSchemeResultPoints r2.state r.state
@@ -123,23 +118,13 @@ theorem restore_id {B : Type} (save : S → B) (restore : B → S) (hid : ∀ s,
 
 /-! ### the two disciplines of the code -/
 
-/-- refinement structure, running result and reference agree; the per-area indicators may differ -/
-def SameButVols (s t : AccState) : Prop :=
-  s.acc = t.acc ∧ s.areas = t.areas ∧ s.startNew = t.startNew ∧ s.script = t.script ∧ s.ref = t.ref
-
-/-- **from-scratch discipline with a reference solution (dimension-wise) is re-entrant in the sense needed**: at
-every state the re-evaluation reproduces error and point count, leaves structure and result unchanged (only the
-accumulated indicators double), and the next refinement starts from the SAME state — so `resume_sim` applies to
-`scrMachine` at every interruption state. -/
-theorem scratch_reentrant (s : AccState) (r : Rat) (hr : s.ref = some r) :
-    ReentrantAt scrMachine (· = ·) SameButVols (scrMachine.eval s).1 (scrMachine.eval s).2 := by
-  have hacc : (scrEval (scrEval s).1).1.acc = (scrEval s).1.acc := rfl
-  refine ⟨?_, rfl, ⟨hacc, rfl, rfl, rfl, rfl⟩, ?_⟩
-  · show (scrEval (scrEval s).1).2.err = (scrEval s).2.err
-    simp only [scrEval, AccState.obs, hr]
-  · show accRefine false (scrEval s).1 = accRefine false (scrEval (scrEval s).1).1
-    unfold accRefine
-    simp only [scrEval]
+/-- **the dimension-wise discipline is strictly re-entrant**, with or without reference solution: the evaluation
+recomputes result and indicators from the refinement alone. -/
+theorem scratch_reentrant (s : AccState) :
+    scrMachine.eval (scrMachine.eval s).1 = ((scrMachine.eval s).1, (scrMachine.eval s).2) := by
+  show scrEval (scrEval s).1 = ((scrEval s).1, (scrEval s).2)
+  have hst : (scrEval (scrEval s).1).1 = (scrEval s).1 := by simp only [scrEval]
+  exact Prod.ext hst (by show (scrEval (scrEval s).1).1.obs = (scrEval s).1.obs; rw [hst])
 
 /-- two areas, reference 1, two scripted splits -/
 def esStart : AccState := ⟨0, [1/2, 1/4], 0, [0, 0], [(0, [1/4, 1/8]), (0, [1/8, 1/16])], some 1⟩
@@ -194,23 +179,25 @@ theorem resume_eq_single_fails_without_reentrance :
   rw [h2, h3] at h1
   exact absurd h1 (by decide +kernel)
 
-/-- witness for the dimension-wise defect without reference: the error is the total of the accumulated indicators -/
+/-- **stop-and-continue of the dimension-wise discipline ends where the single run ends** (all growing limits, all start
+states, with or without reference) -/
+theorem resume_scratch (L1 L2 : Limits) (hg : L1.grow L2) (f f1 f2 : Nat) (s0 : AccState)
+    (r r1 : Result AccState) (hr : run scrMachine L2 f s0 = some r) (hr1 : run scrMachine L1 f1 s0 = some r1)
+    (hf2 : r.refines < f2 + r1.refines) :
+    ∃ r2, resume scrMachine L1 L2 f1 f2 s0 = some r2 ∧ r2.state = r.state ∧ r2.last.err = r.last.err ∧
+      r2.last.pts = r.last.pts ∧ r1.refines + r2.refines = r.refines := by
+  obtain ⟨i, _, _, _, hrr1⟩ := (loop_eq_some_iff scrMachine L1 f1 s0 Hist.empty 0 r1).1 hr1
+  have hre : scrMachine.eval r1.state = (r1.state, r1.last) := by
+    rw [hrr1]
+    exact scratch_reentrant (iter scrMachine s0 i)
+  obtain ⟨r2, h1, h2, h3, h4, h5, _⟩ := resume_eq_single scrMachine L1 L2 hg f f1 f2 s0 r r1 hr hr1 hre hf2
+  exact ⟨r2, h1, h2, h3, h4, h5⟩
+
+/-- the former witness of the defect (no reference, same tolerance, larger maximum): error = total indicator -/
 def dwStart : AccState := ⟨0, [1/2, 1/4], 0, [0, 0], [(0, [1/4, 1/8]), (0, [1/8, 1/16])], none⟩
 
 def tolSmallMax : Limits := ⟨5/8, 1, some 10⟩
 def tolLargeMax : Limits := ⟨5/8, 1, some 20⟩
-
-/-- **counterexample (from-scratch discipline WITHOUT reference).**  Same tolerance, larger maximum.  Both single runs
-stop by tolerance after one refinement with 3 areas (total indicator `5/8 ≤ tol`).  Continuing the stopped run
-re-evaluates: the accumulated indicators double (`5/4 > tol`), the run refines once more and ends with 4 areas. -/
-theorem resume_counterexample_scratch_noref :
-    tolSmallMax.grow tolLargeMax ∧
-    (run scrMachine tolLargeMax 5 dwStart).map (fun r => (r.refines, r.state.areas.length, r.last.err)) =
-      some (1, 3, 5/8) ∧
-    (resume scrMachine tolSmallMax tolLargeMax 5 5 dwStart).map (fun r => (r.refines, r.state.areas.length)) =
-      some (1, 4) ∧
-    (run scrMachine tolSmallMax 5 dwStart).map (fun r => (scrEval r.state).2.err) = some (5/4) := by
-  refine ⟨⟨by decide +kernel, by decide, by show (10 : Int) ≤ 20; decide⟩, by decide +kernel, by decide +kernel, by decide +kernel⟩
 
 /-! ### non-vacuity -/
 
@@ -222,12 +209,12 @@ example : (run scrMachine stopAt4 5 dwStartRef).map (fun r => (r.state.acc, r.st
 example : (resume scrMachine stopAt3 stopAt4 5 5 dwStartRef).map
     (fun r => (r.state.acc, r.state.areas, r.last.err, r.hist.pts)) =
     some (9/16, [1/4, 1/8, 1/8, 1/16], 7/16, [2, 3, 3, 4]) := by decide +kernel
--- hypotheses of `resume_sim` for this instance: simulation by equality, Q respected, re-entrance at the stop
-example : Sim scrMachine (· = ·) := Sim.eq _
-example : ∀ s t : AccState, s = t → SameButVols (scrMachine.eval s).1 (scrMachine.eval t).1 :=
-  fun s t h => by rw [h]; exact ⟨rfl, rfl, rfl, rfl, rfl⟩
-example : ReentrantAt scrMachine (· = ·) SameButVols (scrMachine.eval dwStartRef).1 (scrMachine.eval dwStartRef).2 :=
-  scratch_reentrant dwStartRef 1 rfl
+-- the former defect witness: the run stopped by tolerance stays stopped when continued with a larger maximum
+example : (run scrMachine tolLargeMax 5 dwStart).map (fun r => (r.refines, r.state.areas.length, r.last.err)) =
+    some (1, 3, 5/8) := by decide +kernel
+example : (resume scrMachine tolSmallMax tolLargeMax 5 5 dwStart).map (fun r => (r.refines, r.state.areas.length, r.last.err)) =
+    some (0, 3, 5/8) := by decide +kernel
+example : tolSmallMax.grow tolLargeMax := ⟨by decide +kernel, by decide, by show (10 : Int) ≤ 20; decide⟩
 -- the extend–split witness: single run and stop+continue now agree (9/16, same areas), arrays differ by the doubled entry
 example : (run incMachine stopAt4 5 esStart).map (fun r => (r.state.acc, r.state.areas, r.hist.pts)) =
     some (9/16, [1/4, 1/8, 1/8, 1/16], [2, 3, 4]) := by decide +kernel
